@@ -11,6 +11,7 @@ the truth.
 import collections
 
 from rigsim import fabric
+from rigsim.core import Tape
 from rigsim.machine import SimMachine, RouterEntry, ST_IDLE, ST_RUN
 from rigsim.seams import rig_module
 from .common import Ctl, rigcall, MC_MODULES
@@ -77,7 +78,7 @@ def plan(tier, prop):
              "probed_machine", "direct_machine", "minimise_target_forced",
              "minimisation_failed", "router_error", "placement_error",
              "ordered_covering_used", "remove_default_routes_used",
-             "dead_link_one_direction", "zero_core_vertex", "same_chip_group",
+             "dead_link_one_direction", "zero_core_vertex", "same_chip_group", "earlier_mapping",
              "multi_core_sink"] + ["placer_" + p for p in PLACERS]),
         "knob_ranges": {"machine": "1x1..12x12 (thorough ..24x24), 1xN, 2xN",
                         "nets": "0-20", "fan_out": "0-12",
@@ -394,6 +395,8 @@ class DeployEngine(object):
                 w.probe("memo_prewarmed")
                 for _ in range(1 + t.draw(3)):
                     ner.memoized_concentric_hexagons(t.draw(25))
+            if not self.c03 and t.draw(4) == 0:
+                self.earlier_mapping(Tape(seed=t.subseed()), g.dense_bits)
             radius = [0, 1, 2, 5, 10, 20][t.draw(6)]
             if radius == 0:
                 w.probe("radius_zero")
@@ -599,6 +602,39 @@ class DeployEngine(object):
             c.close()
 
     # ------------------------------------------------------------------
+    def earlier_mapping(self, t2, dense_bits):
+        """Another, unrelated application mapped earlier in this process (its
+        keys come from the same scheme, its tables are squeezed hard so that
+        the minimisers merge): what follows must not care."""
+        par, w = self.par, self.w
+        w.probe("earlier_mapping")
+        g2 = prgen.Graph(t2)
+        g2.dense_bits = dense_bits
+        for _ in range(2 + t2.draw(10)):
+            prgen.add_net(t2, g2, par, max_fanout=5)
+        m2 = par.Machine(1 + t2.draw(4), 1 + t2.draw(4))
+        cons2 = [self.cons.ReserveResourceConstraint(par.Cores, slice(0, 1))]
+        hil = rig_module("rig.place_and_route.place.hilbert")
+        alloc = rig_module("rig.place_and_route.allocate.greedy")
+        ner = rig_module("rig.place_and_route.route.ner")
+        oc = rig_module("rig.routing_table.ordered_covering")
+        try:
+            pl = hil.place(g2.vertices_resources, g2.nets, m2, cons2)
+            al = alloc.allocate(g2.vertices_resources, g2.nets, m2, cons2, pl)
+            ro = ner.route(g2.vertices_resources, g2.nets, m2, cons2, pl, al)
+            tb = self.rt.routing_tree_to_tables(ro, g2.net_keys)
+            if t2.draw(2):
+                self.rt.minimise_tables(tb, [0, 1, 2][t2.draw(3)],
+                                        (oc.minimise,))
+            else:
+                for xy, tab in tb.items():
+                    oc.ordered_covering(tab, t2.draw(3), no_raise=True)
+        except (self.exc.InsufficientResourceError,
+                self.exc.MachineHasDisconnectedSubregion,
+                self.rt.MinimisationFailedError,
+                self.rt.MultisourceRouteError):
+            pass
+
     def stage_failed(self, stage, exc, mv):
         w, c = self.w, self.c
         name = type(exc).__name__
